@@ -6,7 +6,7 @@ From Coq Require Import List NArith Arith Bool.
 From RT Require Import Model.StackTrace Model.StackProto Proofs.LockProofs.
 Import ListNotations.
 
-Theorem C08_exclusive_owner_only : forall size_oracle attempts tabs scripts sched,
+Theorem C08_exclusive_owner_only : forall size_oracle attempts tabs (scripts : list (bool * list apiop)) sched,
   c08_ok (trace_of size_oracle attempts tabs scripts sched) = true.
 Proof. exact c08_all_traces. Qed.
 Print Assumptions C08_exclusive_owner_only.
